@@ -14,7 +14,7 @@ IMPORTS = ('From PM Require Import Lib.Bytes Lib.PyStr Lib.PyStrFacts Http.Url H
            'Http.UrlSpec Net.Forward Net.ForwardCases.\nFrom Coq Require Import ZArith.')
 CASE_TYPE = 'fcase'
 CHECK_FN = 'check_case'
-SHARD = 60
+SHARD = 24
 ANCHOR_FILES = ['proxy/http/handler.py', 'proxy/http/proxy/server.py', 'proxy/http/parser/parser.py',
                 'proxy/http/parser/chunk.py', 'proxy/common/utils.py']
 RULE = ('cases = client connections through the real HttpProtocolHandler+HttpProxyPlugin: 1-3 well-formed proxy requests per '
@@ -170,7 +170,7 @@ def chunk_layout(rng, body):
             trailers.append(H.rtoken(rng) + b': ' + (rvalue(rng) or b'x'))
     return dict(chunks=chunks, last=last, last_ext=last_ext, trailers=trailers)
 
-def gen_request(rng, cfg, first, last, max_body=48, body=None):
+def gen_request(rng, cfg, first, last, max_body=48, body=None, kind=None):
     """a well-formed proxy request (abstract syntax).  first: first request of the connection (credentials needed
     when auth is on); last: no later request follows (Connection: close / HTTP/1.0 allowed)"""
     method = rng.choice(H.METHODS + [b'GET', b'POST', b"M!#$%&'*+-.^_`|~0"])
@@ -202,6 +202,9 @@ def gen_request(rng, cfg, first, last, max_body=48, body=None):
         add(recase(rng, b'Via'), rng.choice([b'1.0 fred', b'1.1 a.example, 1.0 b', b'HTTP/1.1 gw (x y)', b'']))
     if rng.random() < 0.3:
         add(recase(rng, b'Connection'), rng.choice([b'keep-alive', b'Keep-Alive', b'close'] if last else [b'keep-alive', b'Keep-Alive']))
+    if last and version == b'HTTP/1.1' and rng.random() < 0.12 and b'connection' not in names:
+        add(recase(rng, b'Connection'), rng.choice([b'Upgrade', b'upgrade', b'keep-alive, Upgrade']))
+        add(recase(rng, b'Upgrade'), rng.choice([b'websocket', b'h2c', b'derp']))
     if rng.random() < 0.2:
         add(b'User-Agent', rng.choice([b'curl/8.0', b'Mozilla/5.0 (X11; Linux) Gecko', rvalue(rng) or b'x']))
     for d in cfg['disable']:
@@ -209,7 +212,7 @@ def gen_request(rng, cfg, first, last, max_body=48, body=None):
             add(recase(rng, d), rvalue(rng))
     if cfg['disable'] and rng.random() < 0.2:
         add(recase(rng, b'Via'), b'1.0 up')
-    kind = rng.choice(['none', 'cl', 'cl', 'chunked', 'chunked', 'cl0'])
+    kind = kind or rng.choice(['none', 'cl', 'cl', 'chunked', 'chunked', 'cl0'])
     if body is None:
         n = rng.choice([1, 2, 3, 7, 16, max_body])
         body = H.rbody(rng, rng.randint(1, n))
@@ -360,8 +363,8 @@ def generate(rng, tier):
     # Transfer-Encoding with a coding list whose final coding is chunked (known finding)
     for _ in range(3 if tier != 'thorough' else 40):
         cfg = dict(disable=[], auth=None, agent=agent())
-        a = gen_request(rng, cfg, first=True, last=True, max_body=20, body=H.rbody(rng, rng.randint(1, 20)))
-        if a['framing'][0] != 'chunked':
+        a = gen_request(rng, cfg, first=True, last=True, max_body=20, body=H.rbody(rng, rng.randint(1, 20)), kind='chunked')
+        if a['framing'][0] != 'chunked' or not decoded_body(a):
             continue
         f = a['framing'][1]
         a = dict(a, framing=('chunked', (f[0], f[1], rng.choice([b'gzip, chunked', b'identity,chunked', b'x-foo , Chunked']), f[3]), a['framing'][2]))
@@ -396,6 +399,7 @@ def pieces_of(case):
 def run_impl(case):
     import sim
     logging.disable(logging.CRITICAL)
+    case['cfg'] = dict(case['cfg'], agent=agent())      # corpus cases: the Via value of the tree under test
     flags = get_flags(case['cfg'])
     script = None if case['connect_ok'] else [sim.io_error('refused')]
     s = sim.Sim(flags=flags, connect_script=script)
